@@ -4,28 +4,56 @@ import itertools
 DRIVER = "c01"
 MODEL = "C01"
 MODEL_QUALID = "Model.Bulkhead.run_script"
-FORMAT = ("script [cap; max_wait_ms (-1 none); n; (op a b)*] op 1=Poll a 2=Drop a 3=Advance a(ms) 4=Complete a b(0 ok,1 err,2 panic) 5=Call a (create the call future without polling it); "
+FORMAT = ("script [cap; max_wait_ms (-1 none, >= 10^15 = Duration::MAX); n + 1000*flags; (op a b)*] op 1=Poll a 2=Drop a 3=Advance a(ms) "
+          "4=Complete a b(0 ok,1 err,2 panic in the response future,3 synchronous panic inside the inner service's call()) "
+          "5=Call a (create the call future without polling it); events on caller ids outside 0..n-1 are ignored; "
+          "flags: %8 builder route (0 max_concurrent_calls+max_wait_duration, 1 reject_when_full, 2 small, 3 medium, 4 large, 5 default cap, 6 small+max_wait_duration), "
+          "/8%4 handle (0 fresh clone per caller, 1 one shared handle, 2 the layer()'d service itself, 3 chain of clones), /32%2 panicking listeners; "
           "then every caller is dropped and cap+1 fresh callers are polled once (capacity probe). "
-          "trace: per event [r; started; seen; wake mask; in-flight] with r: -1 no poll, 0 pending, 1 Ok, 2 Err(Inner), 3 Timeout, 4 BulkheadFull, 5 panicked, 9 nothing to poll")
+          "trace: per event [r; inner calls started inside this poll; max in-flight seen by an inner call started during the event; wake mask (first 120 callers); in-flight; "
+          "ids(+1, base 1024) of all requests whose inner call started during the event] with r: -1 no poll, 0 pending, 1 Ok, 2 Err(Inner), 3 Timeout, 4 BulkheadFull, 5 panicked, 9 nothing to poll")
 TRUSTED = ["tokio Semaphore (FIFO hand-over on release), time::timeout (inner future polled before the timer) and oneshot are modelled, tied to the libraries only by this correspondence run",
-           "poll atomicity: shared state is touched only inside one poll"]
+           "poll atomicity: shared state is touched only inside one poll",
+           "all clones / handles of one Bulkhead share one semaphore and every builder route yields (max_concurrent_calls, max_wait_duration): not in the model, exercised by the handle / route flags of the scripts"]
 ASSUMPTIONS = ["whole-millisecond instants", "single-threaded deterministic executor: one poll at a time"]
+# scripts on which the REAL code violates the property (none known)
+KNOWN_DEFECT = []
+DMAX = 10 ** 18
+ROWLEN = 6
+MASKW = 120
+
+
+def header(s):
+    nf = s[2]
+    return s[0], s[1], nf % 1000, nf // 1000
 
 
 def events(s):
-    cap, mw, n = s[0], s[1], s[2]
+    cap, mw, n, flags = header(s)
     evs = [tuple(s[i:i + 3]) for i in range(3, len(s) - (len(s) - 3) % 3, 3)]
-    evs = [e for e in evs if e[0] in (1, 2, 3, 4, 5)]
-    evs = [e for e in evs if e[0] in (3,) or 0 <= e[1]]
+    evs = [e for e in evs if e[0] == 3 or (e[0] in (1, 2, 4, 5) and 0 <= e[1] < n)]
     evs += [(2, i, 0) for i in range(n)] + [(1, i, 0) for i in range(n, n + cap + 1)]
     return cap, mw, n, evs
 
 
 def decode(s, t):
     cap, mw, n, evs = events(s)
-    if len(t) != 5 * len(evs):
+    if len(t) != ROWLEN * len(evs):
         return None
-    return cap, mw, n, [(e, t[5 * k:5 * k + 5]) for k, e in enumerate(evs)]
+    return cap, mw, n, [(e, t[ROWLEN * k:ROWLEN * k + ROWLEN]) for k, e in enumerate(evs)]
+
+
+def started_ids(ids):
+    """request ids whose inner call started during the event (column 5)"""
+    out = []
+    while ids > 0:
+        out.append(ids % 1024 - 1)
+        ids //= 1024
+    return out
+
+
+def nf(n, route=0, handle=0, listen=0):
+    return n + 1000 * (route + 8 * handle + 32 * listen)
 
 
 def corpus():
@@ -41,27 +69,112 @@ def corpus():
         [1, 0, 2, 5, 0, 0, 5, 1, 0, 1, 0, 0, 1, 1, 0],
         # cancellation of a granted-but-not-yet-polled waiter hands the permit on
         [1, -1, 3, 1, 0, 0, 1, 1, 0, 1, 2, 0, 4, 0, 1, 1, 0, 0, 2, 1, 0, 1, 2, 0],
+        # call() long before the first poll: the wait is counted from the first poll (as built); either reading passes the monitor
+        [1, 5, 3, 5, 2, 0, 1, 0, 0, 3, 19, 0, 1, 2, 0, 3, 4, 0, 1, 2, 0, 3, 1, 0, 1, 2, 0],
+        # max_wait_duration(Duration::MAX): the waiter simply waits; a release admits it
+        [1, DMAX, 2, 1, 0, 0, 1, 1, 0, 3, 50, 0, 1, 1, 0, 4, 0, 0, 1, 0, 0, 1, 1, 0],
+        [2, DMAX, 3, 1, 0, 0, 1, 1, 0, 1, 2, 0, 2, 2, 0, 3, 30, 0],
+        # the inner service panics synchronously inside call(): the slot must come back (cap such calls, then the probe)
+        [1, -1, 2, 4, 0, 3, 1, 0, 0, 4, 1, 3, 1, 1, 0],
+        [2, 0, 3, 4, 0, 3, 4, 1, 3, 1, 0, 0, 1, 1, 0, 1, 2, 0],
+        [1, 10, 3, 1, 0, 0, 4, 1, 3, 1, 1, 0, 4, 0, 0, 1, 0, 0, 1, 1, 0, 1, 2, 0],
+        # Complete .. 3 after the inner call has started = ordinary panic of the response future
+        [1, -1, 1, 1, 0, 0, 4, 0, 3, 1, 0, 0],
+        # reject_when_full() and the presets; default capacity; panicking listeners; every kind of handle
+        [1, 0, nf(2, route=1), 1, 0, 0, 1, 1, 0, 4, 0, 1, 1, 0, 0],
+        fill(10, 0, 12, route=2), fill(50, 0, 52, route=3, handle=1), fill(200, 0, 202, route=4, handle=3),
+        fill(25, -1, 27, route=5, handle=2), fill(25, 7, 27, route=5, listen=1), fill(10, 5, 12, route=6, listen=1, handle=1),
+        [2, 5, nf(4, listen=1), 1, 0, 0, 1, 1, 0, 1, 2, 0, 1, 3, 0, 4, 0, 0, 4, 1, 1, 1, 0, 0, 1, 1, 0, 3, 5, 0, 1, 2, 0, 1, 3, 0],
+        [2, 5, nf(4, handle=1), 1, 0, 0, 1, 1, 0, 1, 2, 0, 4, 0, 2, 1, 0, 0, 1, 2, 0, 3, 5, 0, 1, 3, 0],
+        [2, -1, nf(4, handle=2), 1, 0, 0, 1, 1, 0, 1, 2, 0, 2, 1, 0, 1, 2, 0, 1, 3, 0],
+        [2, 20, nf(5, handle=3), 1, 0, 0, 1, 1, 0, 1, 2, 0, 1, 3, 0, 2, 2, 0, 4, 1, 0, 1, 1, 0, 1, 3, 0, 1, 4, 0],
+        # events on ids outside 0..n-1 are ignored by model, driver and decoder alike
+        [1, -1, 1, 1, 7, 0, 4, -1, 0, 2, 1, 0, 5, 3, 0, 1, 0, 0, 9, 0, 0],
+        sequential(None, 1, -1, 60, handle=1), sequential(None, 2, 5, 55, handle=2),
     ]
 
 
+def fill(cap, mw, n, route=0, handle=0, listen=0, rng=None):
+    """more callers than slots: all polled, some ended in every way, the freed slots re-used"""
+    s = [cap, mw, nf(n, route, handle, listen)]
+    order = list(range(n))
+    if rng:
+        rng.shuffle(order)
+    for i in order:
+        s += [1, i, 0]
+    done = order[:3] if not rng else rng.sample(order, min(n, rng.randint(1, 6)))
+    for k, i in enumerate(done):
+        s += [4, i, k % 4 if not rng else rng.choice([0, 0, 1, 2, 3])]
+        s += [1, i, 0]
+    s += [2, order[-4 % n], 0]
+    for i in order[-3:]:
+        s += [1, i, 0]
+    s += [3, mw if 0 < mw <= 50 else 1, 0]
+    for i in order[-3:]:
+        s += [1, i, 0]
+    return s
+
+
+def sequential(rng, cap, mw, n, handle=1, listen=0):
+    """a long history of calls one after the other (through one handle by default): each is admitted, ends, next"""
+    s = [cap, mw, nf(n, 0, handle, listen)]
+    for i in range(n):
+        o = (i % 5) % 4 if rng is None else rng.choice([0, 0, 0, 1, 2, 3])
+        if o == 3:
+            s += [4, i, 3, 1, i, 0]
+        else:
+            s += [1, i, 0, 4, i, o, 1, i, 0]
+        if rng is not None and rng.random() < 0.1:
+            s += [3, rng.choice([1, 5]), 0]
+    return s
+
+
+def random_config(rng, maxn):
+    x = rng.random()
+    cap = rng.choice([1, 1, 2, 2, 3]) if x < 0.8 else rng.choice([4, 5, 8])
+    mw = rng.choice([-1, -1, 0, 5, 20, 20, 50, 50, DMAX, 86400000])
+    n = rng.randint(1, maxn if cap <= 3 else maxn + 4)
+    route, handle, listen = 0, 0, 0
+    y = rng.random()
+    if y < 0.06:
+        route, mw = 1, 0
+    elif y < 0.10:
+        route, cap, mw = 2, 10, 0
+    elif y < 0.12:
+        route, cap = 5, 25
+    elif y < 0.14:
+        route, cap, mw = 6, 10, (mw if mw >= 0 else 5)   # small() left alone is reject_when_full: route 6 always sets a wait
+    if rng.random() < 0.35:
+        handle = rng.choice([1, 2, 3])
+    if rng.random() < 0.15:
+        listen = 1
+    return cap, mw, n, nf(n, route, handle, listen)
+
+
+def random_event(rng, n):
+    x = rng.random()
+    if x < 0.45:
+        return [1, rng.randrange(n), 0]
+    if x < 0.5:
+        return [5, rng.randrange(n), 0]      # call() without a poll
+    if x < 0.62:
+        return [2, rng.randrange(n), 0]
+    if x < 0.80:
+        return [3, rng.choice([1, 4, 5, 15, 19, 20, 20, 30, 49, 50]), 0]
+    return [4, rng.randrange(n), rng.choice([0, 0, 0, 1, 2, 3])]
+
+
 def random_script(rng, maxn=6, maxlen=30):
-    cap = rng.choice([1, 1, 2, 2, 3])
-    mw = rng.choice([-1, -1, 0, 5, 20, 20, 50])
-    n = rng.randint(1, maxn)
-    s = [cap, mw, n]
+    cap, mw, n, nflags = random_config(rng, maxn)
+    s = [cap, mw, nflags]
     L = rng.randint(3, maxlen)
     for _ in range(L):
-        x = rng.random()
-        if x < 0.45:
-            s += [1, rng.randrange(n), 0]
-        elif x < 0.5:
-            s += [5, rng.randrange(n), 0]      # call() without a poll
-        elif x < 0.62:
-            s += [2, rng.randrange(n), 0]
-        elif x < 0.80:
-            s += [3, rng.choice([1, 4, 5, 15, 19, 20, 20, 30, 49, 50]), 0]
-        else:
-            s += [4, rng.randrange(n), rng.choice([0, 0, 1, 2])]
+        s += random_event(rng, n)
+    if rng.random() < 0.25:
+        # spare capacity mid-history: the callers not used so far arrive one after the other while the others stay
+        for i in range(n):
+            if rng.random() < 0.6:
+                s += [1, i, 0]
     return s
 
 
@@ -76,16 +189,69 @@ def exhaustive(depth, cap=1, mw=2, n=3):
             yield s
 
 
+def exhaustive_timeout(depth, cap=1, mw=2, n=3):
+    """all histories over the small alphabet that reaches a wait timeout (the full alphabet needs depth 4 for one)"""
+    alpha = [(1, 0, 0), (1, 1, 0), (1, 2, 0), (3, 2, 0), (2, 1, 0), (4, 0, 0)]
+    for evs in itertools.product(alpha, repeat=depth):
+        s = [cap, mw, n]
+        for e in evs:
+            s += list(e)
+        yield s
+
+
 def generate(rng, tier):
     out = []
+    presets = [(10, 0, 2), (50, 0, 3), (200, 0, 4), (25, -1, 5), (25, 20, 5), (10, 5, 6), (10, DMAX, 6)]
     if tier == "quick":
         out += [random_script(rng) for _ in range(1500)]
         out += list(exhaustive(2, 1, 2, 3))
+        out += list(exhaustive_timeout(4, 1, 2, 3))
+        for _ in range(30):
+            cap, mw, route = rng.choice(presets[:2] + presets[3:])
+            out.append(fill(cap, mw, cap + rng.randint(1, 4), route, rng.randrange(4), rng.randrange(2), rng))
+        out.append(fill(200, 0, 203, 4, 1, 1, rng))
+        for _ in range(40):
+            cap = rng.choice([1, 2, 3, 4, 8])
+            out.append(fill(cap, rng.choice([-1, 0, 5, DMAX]), cap + rng.randint(1, 4), 0, rng.randrange(4), rng.randrange(2), rng))
+        out += [sequential(rng, rng.choice([1, 2, 3]), rng.choice([-1, 0, 5]), rng.randint(50, 80), rng.choice([1, 1, 2, 3, 0]), rng.randrange(2)) for _ in range(20)]
     else:
         out += [random_script(rng, 8, 60) for _ in range(20000)]
         out += list(exhaustive(4, 1, 2, 3))
         out += list(exhaustive(3, 2, -1, 3))
         out += list(exhaustive(3, 1, 0, 3))
+        out += list(exhaustive_timeout(6, 1, 2, 3))
+        out += list(exhaustive_timeout(5, 2, 2, 3))
+        for _ in range(300):
+            cap, mw, route = rng.choice(presets)
+            out.append(fill(cap, mw, cap + rng.randint(1, 6), route, rng.randrange(4), rng.randrange(2), rng))
+        for _ in range(400):
+            cap = rng.choice([1, 2, 3, 4, 5, 8, 16])
+            out.append(fill(cap, rng.choice([-1, 0, 5, 50, DMAX]), cap + rng.randint(1, 6), 0, rng.randrange(4), rng.randrange(2), rng))
+        # (the model's closures make a history of k events cost O(k^2): keep these below ~500 events)
+        out += [sequential(rng, rng.choice([1, 2, 3]), rng.choice([-1, 0, 5]), rng.randint(50, 150), rng.choice([1, 1, 2, 3, 0]), rng.randrange(2)) for _ in range(60)]
+    return out
+
+
+def extended(rng, mism):
+    """search for a failing input after a bare correspondence break: the neighbourhood of the scripts on which model
+    and implementation differ (prefixes, continuations, other waits) plus a fresh random batch"""
+    out = []
+    for (s, a, b, d) in sorted(mism, key=lambda m: len(m[0]))[:40]:
+        head, body = list(s[:3]), list(s[3:])
+        k = len(body) // 3
+        n = max(1, head[2] % 1000)
+        for j in range(1, k + 1):
+            out.append(head + body[:3 * j])
+        for _ in range(25):
+            t = head + body[:3 * rng.randint(0, k)]
+            for _ in range(rng.randint(1, 8)):
+                t += random_event(rng, n)
+            out.append(t)
+        if head[2] < 1000:
+            for mw in (-1, 0, 5, 20, DMAX):
+                out.append([head[0], mw, head[2]] + body)
+    out += [random_script(rng, 8, 40) for _ in range(6000)]
+    out += list(exhaustive_timeout(5, 1, 2, 3))
     return out
 
 
@@ -95,7 +261,6 @@ def nontrivial(s, t):
     if not d:
         return True
     cap, mw, n, evt = d
-    polled = set()
     for (e, o) in evt[:-(n + cap + 1)]:
         if e[0] == 1 and o[0] == 0 and o[1] == 0:
             return True  # pending without having started: queued
@@ -106,20 +271,34 @@ def nontrivial(s, t):
 
 def classify(s, t):
     d = decode(s, t)
-    out = ["cap%d" % s[0], "maxwait_%s" % ("none" if s[1] < 0 else ("zero" if s[1] == 0 else "finite"))]
+    cap, mw, n, flags = header(s)
+    out = ["cap%s" % (cap if cap <= 3 else ("4to8" if cap <= 8 else "%d" % cap if cap in (10, 25, 50, 200) else "9plus")),
+           "maxwait_%s" % ("none" if mw < 0 else ("zero" if mw == 0 else ("duration_max" if mw >= 10 ** 15 else ("finite" if mw <= 1000 else "huge")))),
+           "route%d" % (flags % 8), "handle%d" % (flags // 8 % 4)]
+    if flags // 32 % 2:
+        out.append("panicking_listeners")
+    if n >= 50:
+        out.append("long_history")
     if d:
         rs = set(o[0] for (_, o) in d[3])
         for r, name in ((1, "ok"), (2, "inner_err"), (3, "timeout"), (5, "panic")):
             if r in rs:
                 out.append("saw_" + name)
-        if any(e[0] == 2 for (e, _) in d[3][:-(d[2] + d[0] + 1)]):
+        body = d[3][:-(d[2] + d[0] + 1)]
+        if any(e[0] == 2 for (e, _) in body):
             out.append("has_cancel")
+        if any(e[0] == 4 and e[2] == 3 for (e, _) in body):
+            out.append("sync_panic_in_call")
+        if any(o[4] == cap for (_, o) in body):
+            out.append("reached_full")
     return out
 
 
 def shrink(s):
-    """candidate smaller scripts: remove one event"""
+    """candidate smaller scripts: remove one event; plain configuration flags"""
     head, body = s[:3], s[3:]
     k = len(body) // 3
     for i in range(k):
         yield head + body[:3 * i] + body[3 * i + 3:]
+    if head[2] >= 1000 and head[2] // 1000 % 8 in (0, 1):
+        yield [head[0], head[1], head[2] % 1000] + body
